@@ -118,6 +118,36 @@ CLAIMS['C07'] = dict(
     note='Trusted: rustc MIR, u32::wrapping_* semantics. Table entries marked ASSUMPTION (32-bit callee registers) apply to the FPO arithmetic.',
     ref='DESIGN.md §3 C07')
 
+CLAIMS['C04'] = dict(
+    technique='call ordering by reachability and guard dominance, constant labels, MIR-level sibling diff, register-name table cross-check',
+    text='Narrow claim: necessary structural conditions only. Decided for every input: technique priority cfi > frame pointer > scan with each later technique guarded by frame.is_none() and no way back; technique labels; '
+         'arm64.rs and arm64_old.rs are the same MIR modulo the context type; every register name the unwinders use exists in its context\'s tables and every name inserted into or tested against a validity set is the canonical (memoized) spelling; '
+         'scan windows (40/160 words, 15 x 16 bytes on amd64 Windows, 1024 bytes on MIPS) equal the documented values. Two alias-spelling defects found by the last rule were repaired in /repo. '
+         'That the right frames come out of a given stack is behavioural and NOT decided: a fault inside a technique\'s arithmetic is invisible here.',
+    note='Trusted: rustc MIR, the C18 tables (reused). The twin comparison is order-sensitive over statements and terminators with unnamed locals anonymised; reordering independent statements in only one twin is reported.',
+    ref='DESIGN.md §3 C04')
+CLAIMS['C08'] = dict(
+    technique='who-may-call, constructor guard dominance, path-sensitive skeleton of the two range-map builders, payload typing',
+    text='Narrow claim: range maps are built only through the two safe builders, every Range::new sits in a constructor that rejects empty and overflowing ranges, both builders sort first and on no feasible path push an entry '
+         'unless last.end < range.start was established (conflicting overlaps skipped, equal neighbours merged), payloads are unique indices or self-describing records, the unloaded-module list is sorted and filtered with contains, '
+         'and modules with size 0 or overflowing base + size never enter a list. The data-structure invariant for every arrangement of ranges (lookup soundness and completeness) is not decided.',
+    note='Trusted: range-map crate (RangeMap::get / try_from_iter), slice::sort_by_key. Path feasibility pruning uses purity of the comparisons and saturating_add(e,k) >= e.',
+    ref='DESIGN.md §3 C08')
+CLAIMS['C10'] = dict(
+    technique='consume/callback pairing by dominance, return-shape dataflow, transition-table equality of the sync and async parse loops',
+    text='Narrow claim: in SymbolFile::parse and parse_async every buf.consume(n) is dominated by callback(&buf.data()[..n]) with nothing touching the buffer in between and no other way for bytes to leave the window, so the bytes handed to the callback are exactly the consumed prefix; '
+         'parse_more returns 0 or the length of the input trimmed after its last newline; the two loops have identical transition tables (every buffer / flag / return effect with its guard conditions), so HTTP chunking feeds the same state machine as a Read; the cache tee is a pure writer. '
+         'Equality of parse outcomes across chunk schedules is behavioural and not decided.',
+    note='Trusted: circular::Buffer (data / consume semantics), rustc MIR of the coroutine before the state transform.',
+    ref='DESIGN.md §3 C10')
+CLAIMS['C11'] = dict(
+    technique='sort-before-search dominance, derived-Ord field order, key projection shape, guard dominance on base subtraction',
+    text='Narrow claim: the searches of symbolication run on data sorted by the very key they search (the sort dominates the store; Inlinee orders by (depth, address), PublicSymbol by address), the inlinee candidate is re-checked for depth and coverage, '
+         'the module base is never subtracted from a smaller address, reported bases are the looked-up record\'s address plus the module base, the PUBLIC fallback is a reverse scan for address <= addr, and inline frames are reversed exactly once after symbolication. '
+         'That the right record is returned for every record set is not decided.',
+    note='Trusted: slice::binary_search_by_key, RangeMap::get, rustc MIR.',
+    ref='DESIGN.md §3 C11')
+
 NOT_YET = {}
 NA = {
     'C14': 'every clause relates values of the result to values of the dump (which thread, which context, which address after masking); no clause has a structural form that would not also fire on behaviour-preserving rewrites, so static analysis does not apply; its panic-freedom is covered under C03',
